@@ -912,13 +912,15 @@ theorem parseDecls_assocBlock (as : List CAssoc) (hw : ∀ a ∈ as, WFAssoc a) 
 structure WFSpec (s : CSpec) : Prop where
   defKeys : (s.defines.map (·.1)).Nodup
   defVals : ∀ kv ∈ s.defines, noQuote kv.2
-  catNodup : s.categories.Nodup
+  /-- no two categories that are equal for Python's `==` (i.e. up to the order of their meta entries) -/
+  catNodup : s.categories.Pairwise (fun a b => catEqv b a = false)
   catMeta : ∀ c ∈ s.categories, WFMeta c.2
-  assetNodup : s.assets.Nodup
+  /-- no two assets that are equal for Python's `==` (up to the order of meta entries and the spelling of numbers) -/
+  assetNodup : s.assets.Pairwise (fun a b => assetEqv b a = false)
   assetWF : ∀ a ∈ s.assets, WFAsset a
   /-- the assets are listed category by category, in the order of the categories -/
   grouped : s.assets = s.categories.flatMap (fun c => s.assets.filter (·.category = c.1))
-  assocNodup : s.associations.Nodup
+  assocNodup : s.associations.Pairwise (fun a b => assocEqv b a = false)
   assocWF : ∀ a ∈ s.associations, WFAssoc a
 
 theorem prDefines_length (ds : List (String × String)) : (prDefines ds).length = 4 * ds.length := by
@@ -1240,6 +1242,157 @@ theorem dedup_repeat (a x b : List α) : dedup (a ++ x ++ b ++ x) = dedup (a ++ 
 
 end Dedup
 
+/-! ### first-occurrence de-duplication with Python's `==` (`dedupBy`, what `visitMal` does) -/
+
+section DedupBy
+variable {α : Type} (r : α → α → Bool)
+
+def dedupByAux (acc l : List α) : List α :=
+  l.foldl (fun acc x => if acc.any (r x) then acc else acc ++ [x]) acc
+
+theorem dedupBy_eq_aux (l : List α) : dedupBy r l = dedupByAux r [] l := rfl
+
+theorem dedupByAux_append (acc a b : List α) : dedupByAux r acc (a ++ b) = dedupByAux r (dedupByAux r acc a) b := by
+  simp [dedupByAux, List.foldl_append]
+
+theorem dedupByAux_cons (acc : List α) (x : α) (l : List α) :
+    dedupByAux r acc (x :: l) = dedupByAux r (if acc.any (r x) then acc else acc ++ [x]) l := by
+  simp [dedupByAux, List.foldl_cons]
+
+/-- nothing is invented: every element of the result was in the accumulator or in the list -/
+theorem mem_dedupByAux (acc l : List α) (y : α) (h : y ∈ dedupByAux r acc l) : y ∈ acc ∨ y ∈ l := by
+  induction l generalizing acc with
+  | nil => exact .inl h
+  | cons x l ih =>
+    rw [dedupByAux_cons] at h
+    rcases ih _ h with h | h
+    · split at h
+      · exact .inl h
+      · rcases List.mem_append.mp h with h | h
+        · exact .inl h
+        · simp only [List.mem_cons, List.not_mem_nil, or_false] at h; exact .inr (h ▸ List.mem_cons_self)
+    · exact .inr (List.mem_cons_of_mem _ h)
+
+theorem mem_dedupBy (l : List α) (y : α) (h : y ∈ dedupBy r l) : y ∈ l := by
+  rcases mem_dedupByAux r [] l y h with h | h
+  · cases h
+  · exact h
+
+/-- the accumulator is kept (as a prefix) -/
+theorem dedupByAux_prefix (acc l : List α) : ∃ t, dedupByAux r acc l = acc ++ t := by
+  induction l generalizing acc with
+  | nil => exact ⟨[], by simp [dedupByAux]⟩
+  | cons x l ih =>
+    rw [dedupByAux_cons]
+    split
+    · exact ih acc
+    · obtain ⟨t, ht⟩ := ih (acc ++ [x])
+      exact ⟨x :: t, by rw [ht]; simp⟩
+
+/-- every element has a representative in the result (given that it equals itself) -/
+theorem rep_dedupByAux (acc l : List α) (hrefl : ∀ y ∈ l, r y y = true) :
+    (∀ y ∈ l, (dedupByAux r acc l).any (r y) = true) := by
+  induction l generalizing acc with
+  | nil => intro y hy; cases hy
+  | cons x l ih =>
+    intro y hy
+    rw [dedupByAux_cons]
+    rcases List.mem_cons.mp hy with rfl | hy
+    · obtain ⟨t, ht⟩ := dedupByAux_prefix r (if acc.any (r y) then acc else acc ++ [y]) l
+      rw [ht, List.any_append]
+      split
+      · rename_i h; simp [h]
+      · simp [hrefl y List.mem_cons_self]
+    · exact ih _ (fun z hz => hrefl z (List.mem_cons_of_mem _ hz)) y hy
+
+/-- in the result no element equals an earlier one -/
+theorem pairwise_dedupByAux (acc l : List α) (h : acc.Pairwise (fun a b => r b a = false)) :
+    (dedupByAux r acc l).Pairwise (fun a b => r b a = false) := by
+  induction l generalizing acc with
+  | nil => exact h
+  | cons x l ih =>
+    rw [dedupByAux_cons]
+    apply ih
+    split
+    · exact h
+    · rename_i hx
+      rw [List.pairwise_append]
+      refine ⟨h, by simp, ?_⟩
+      intro a ha b hb
+      simp only [List.mem_cons, List.not_mem_nil, or_false] at hb
+      subst hb
+      simp only [List.any_eq_true, not_exists, not_and, Bool.not_eq_true] at hx
+      exact hx a ha
+
+theorem pairwise_dedupBy (l : List α) : (dedupBy r l).Pairwise (fun a b => r b a = false) :=
+  pairwise_dedupByAux r [] l List.Pairwise.nil
+
+/-- nothing to remove -/
+theorem dedupByAux_of_pairwise (acc l : List α) (h : (acc ++ l).Pairwise (fun a b => r b a = false)) :
+    dedupByAux r acc l = acc ++ l := by
+  induction l generalizing acc with
+  | nil => simp [dedupByAux]
+  | cons x l ih =>
+    rw [dedupByAux_cons]
+    have hx : acc.any (r x) = false := by
+      rw [List.pairwise_append] at h
+      simp only [List.any_eq_false]
+      intro a ha
+      simpa using h.2.2 a ha x List.mem_cons_self
+    simp only [hx, Bool.false_eq_true, if_false]
+    rw [ih _ (by simpa using h)]
+    simp
+
+theorem dedupBy_of_pairwise (l : List α) (h : l.Pairwise (fun a b => r b a = false)) : dedupBy r l = l := by
+  rw [dedupBy_eq_aux, dedupByAux_of_pairwise r [] l (by simpa using h)]; simp
+
+/-- everything already represented -/
+theorem dedupByAux_of_rep (acc l : List α) (h : ∀ y ∈ l, acc.any (r y) = true) : dedupByAux r acc l = acc := by
+  induction l with
+  | nil => rfl
+  | cons x l ih =>
+    rw [dedupByAux_cons]
+    simp only [h x List.mem_cons_self, if_true]
+    exact ih (fun y hy => h y (List.mem_cons_of_mem _ hy))
+
+theorem dedupBy_idem (l : List α) : dedupBy r (dedupBy r l) = dedupBy r l :=
+  dedupBy_of_pairwise r _ (pairwise_dedupBy r l)
+
+/-- de-duplicating a part first (an included file is de-duplicated by its own `visitMal`) changes nothing -/
+theorem dedupBy_dedupBy_append (a b : List α) : dedupBy r (dedupBy r a ++ b) = dedupBy r (a ++ b) := by
+  rw [dedupBy_eq_aux, dedupByAux_append, ← dedupBy_eq_aux, dedupBy_idem, dedupBy_eq_aux r (a ++ b), dedupByAux_append]
+  rfl
+
+/-- a repeated block (a file included twice) changes nothing -/
+theorem dedupBy_repeat (a x b : List α) (hrefl : ∀ y ∈ x, r y y = true) :
+    dedupBy r (a ++ x ++ b ++ x) = dedupBy r (a ++ x ++ b) := by
+  rw [dedupBy_eq_aux, dedupByAux_append, ← dedupBy_eq_aux]
+  apply dedupByAux_of_rep
+  intro y hy
+  rw [dedupBy_eq_aux, List.append_assoc, dedupByAux_append, dedupByAux_append]
+  obtain ⟨t, ht⟩ := dedupByAux_prefix r (dedupByAux r (dedupByAux r [] a) x) b
+  rw [ht, List.any_append, rep_dedupByAux r _ x hrefl y hy]
+  rfl
+
+/-- the structural `dedup` is the special case of structural equality -/
+theorem dedup_eq_dedupBy [DecidableEq α] (l : List α) : dedup l = dedupBy (fun a b => decide (b = a)) l := by
+  unfold dedup dedupBy
+  congr 1
+  funext acc x
+  have : acc.contains x = acc.any (fun b => decide (b = x)) := by
+    induction acc with
+    | nil => rfl
+    | cons c cs ih =>
+      rw [List.contains_cons, List.any_cons, ih]
+      congr 1
+      by_cases h : x = c
+      · subst h; simp
+      · have h' : ¬ c = x := fun e => h e.symm
+        simp [h, h']
+  rw [this]
+
+end DedupBy
+
 /-! ### assembling the specification (`visitMal`) -/
 
 def assembleStep (inc : String → Option CSpec) (s : CSpec) (d : Decl) : Option CSpec :=
@@ -1250,7 +1403,8 @@ def assembleStep (inc : String → Option CSpec) (s : CSpec) (d : Decl) : Option
   | .associations l => some { s with associations := s.associations ++ l }
 
 def finishSpec (s : CSpec) : CSpec :=
-  { s with categories := dedup s.categories, assets := dedup s.assets, associations := dedup s.associations }
+  { s with categories := dedupBy catEqv s.categories, assets := dedupBy assetEqv s.assets,
+           associations := dedupBy assocEqv s.associations }
 
 def assemble (inc : String → Option CSpec) (decls : List Decl) : Option CSpec :=
   (decls.foldlM (assembleStep inc) ({} : CSpec)).map finishSpec
@@ -1346,7 +1500,8 @@ theorem assemble_declsOf (inc : String → Option CSpec) (s : CSpec) (hw : WFSpe
   rw [foldl_metaPut_nodup s.defines [] (by simpa using hw.defKeys)]
   have hfin : finishSpec ⟨s.defines, s.categories, s.assets, s.associations⟩ = s := by
     unfold finishSpec
-    simp only [dedup_of_nodup _ hw.catNodup, dedup_of_nodup _ hw.assetNodup, dedup_of_nodup _ hw.assocNodup]
+    simp only [dedupBy_of_pairwise _ _ hw.catNodup, dedupBy_of_pairwise _ _ hw.assetNodup,
+      dedupBy_of_pairwise _ _ hw.assocNodup]
   by_cases ha : s.associations = []
   · simp only [ha, if_true, List.foldlM_nil, Option.pure_def, Option.map_some, List.nil_append]
     rw [← hw.grouped]
